@@ -214,11 +214,32 @@ class Engine:
         return None
 
     # ---------------------------------------------------------------- assumptions, branches, obligations
+    def _record(self, cond, val):
+        """Remember that `cond` has truth value `val` on this path (syntactic cache keyed by AST id)."""
+        self.decided[cond.get_id()] = val
+        self.keep.append(cond)
+        if z3.is_not(cond):
+            self._record(cond.arg(0), not val)
+        elif val and z3.is_and(cond):
+            for ch in cond.children():
+                self._record(ch, True)
+        elif not val and z3.is_or(cond):
+            for ch in cond.children():
+                self._record(ch, False)
+        elif val and z3.is_distinct(cond):
+            ch = cond.children()
+            for i in range(len(ch)):
+                for j in range(i + 1, len(ch)):
+                    self._record(z3.simplify(ch[i] == ch[j]), False)
+
     def assume(self, cond):
         cond = self.norm(_b(cond))
         if z3.is_true(cond):
             return
+        if self.decided.get(cond.get_id()) is True:
+            return
         self.pc.append(cond)
+        self._record(cond, True)
         if self._model_says(cond) is True:
             self.stats["model_hits"] += 1
             return
@@ -241,6 +262,10 @@ class Engine:
             return True
         if z3.is_false(cond):
             return False
+        hit = self.decided.get(cond.get_id())
+        if hit is not None:
+            self.stats["cache_hits"] = self.stats.get("cache_hits", 0) + 1
+            return hit
         i = self.pos
         self.pos += 1
         if i < len(self.trail):
@@ -281,13 +306,14 @@ class Engine:
             else:
                 raise EngineAbort()
         self.pc.append(cond if dec else z3.Not(cond))
+        self._record(cond, dec)
         return dec
 
     def check_holds(self, cond, label=""):
         """Obligation: under the current path condition `cond` must hold (negation unsat)."""
         cond = self.norm(_b(cond))
         self.stats["obligations"] += 1
-        if z3.is_true(cond):
+        if z3.is_true(cond) or self.decided.get(cond.get_id()) is True:
             self.stats["discharged"] += 1
             return True
         neg = z3.Not(cond)
@@ -352,6 +378,8 @@ class Engine:
         self.inputs = {}
         while True:
             self.pc = []
+            self.decided = {}
+            self.keep = []      # keeps recorded ASTs alive so that their ids are not reused
             self.cf_apps = []
             self.fresh = itertools.count()
             self.memo = {}
